@@ -76,6 +76,14 @@ impl Engine for PartEngine {
                     }
                 }
             }
+            ("blh", 6) => {
+                // hostile call: PANIC / no PANIC only (see the generator's `hostile-bl` family)
+                let (al, asm, nl, l, e, s) = (n[0], n[1], n[2], n[3], n[4], n[5]);
+                match guarded(move || hk::block_length(al, asm, nl, l, e, s as u32)) {
+                    Ok(_) => "ok".to_string(),
+                    Err(_) => "PANIC".to_string(),
+                }
+            }
             ("snd", 3) => sender_blocks(n[0], n[1], n[2], o),
             ("fti", 4) => fti_reconstruct(n[0], n[1], n[2], n[3], o),
             ("sbl", 3) => sender_wire_sbl(n[0], n[1], n[2], o),
@@ -536,7 +544,9 @@ pub fn run(ctx: &mut Ctx, eng: &mut dyn Engine) {
     }
     ctx.sample("part bp 3 23 4 -> ok 3 3 0 2 ; part bl 3 3 0 23 4 1 -> ok 11".to_string());
     // hostile block_length calls (what an attacker-chosen SBN / inconsistent quadruple would reach if callers did not
-    // guard): model and code must agree on value or PANIC
+    // guard): op `blh` compares PANIC / no-PANIC only - the VALUE returned for an input that is no partition of anything is
+    // unspecified (a rewrite with saturating arithmetic may clip where today's code wraps), and ./check accepts
+    // "model PANIC, code value" (model more pessimistic) for this op
     ctx.case("hostile-bl");
     let nh = if ctx.tier_thorough { 60_000 } else { 6_000 };
     for i in 0..nh {
@@ -546,10 +556,10 @@ pub fn run(ctx: &mut Ctx, eng: &mut dyn Engine) {
         let q = rfc(b as u128, l as u128, e as u128);
         let (al, asm, nl, n) = (q.0 as u64, q.1 as u64, q.2 as u64, q.3 as u64);
         let op = match rng.below(4) {
-            0 => format!("part bl {} {} {} {} {} {}", al, asm, nl, l, e, n + rng.below(3)),
-            1 => format!("part bl {} {} {} {} {} {}", al, asm, nl, l, e, *rng.pick(&[u32::MAX as u64, u32::MAX as u64 - 1, 65536, 1 << 31])),
-            2 => format!("part bl {} {} {} {} {} {}", rng.below(50), rng.below(50), rng.below(20), l, e, rng.below(30)),
-            _ => format!("part bl {} {} {} {} {} {}", rng.bits(40) as u64, rng.bits(40) as u64, rng.bits(33) as u64, rng.bits(48) as u64, 1 + rng.bits(16) as u64 % 65535, rng.bits(32) as u64),
+            0 => format!("part blh {} {} {} {} {} {}", al, asm, nl, l, e, n + rng.below(3)),
+            1 => format!("part blh {} {} {} {} {} {}", al, asm, nl, l, e, *rng.pick(&[u32::MAX as u64, u32::MAX as u64 - 1, 65536, 1 << 31])),
+            2 => format!("part blh {} {} {} {} {} {}", rng.below(50), rng.below(50), rng.below(20), l, e, rng.below(30)),
+            _ => format!("part blh {} {} {} {} {} {}", rng.bits(40) as u64, rng.bits(40) as u64, rng.bits(33) as u64, rng.bits(48) as u64, 1 + rng.bits(16) as u64 % 65535, rng.bits(32) as u64),
         };
         let obs = ctx.step(eng, &op);
         ctx.evaluations += 1;
